@@ -5,6 +5,11 @@ import json, sys
 pid = sys.argv[1]
 suffix = sys.argv[2] if len(sys.argv) > 2 else ""
 first = int(sys.argv[3]) if len(sys.argv) > 3 else 1
+focus = sys.argv[4] if len(sys.argv) > 4 else ""
+FOCUS = {
+ "": "",
+ "schedule": "\nAdditional requirement for this round: BOTH changes must be concurrency defects — they must need a specific cross-thread interleaving (a window of a few instructions or a particular order of two threads' steps) or a weak-memory reordering to manifest, and must be invisible to every single-threaded sequence of operations (including re-entrant callbacks on one thread). Changes that merely remove a whole lock or make every concurrent run fail are too coarse: ordinary use must still work almost always.\n",
+}[focus]
 prop = next(json.loads(l) for l in open('/verif/properties.jsonl') if json.loads(l)['id'] == pid)
 wt = f"/tmp/seed_wt_{pid}{suffix}"
 a, b = first, first + 1
@@ -14,6 +19,7 @@ The property under study (a semantic guarantee users of the library rely on):
 
 {json.dumps(prop, indent=1)}
 
+{FOCUS}
 Task: produce TWO different changes (different mechanisms / code sites) to the library source under `{wt}/packages/`, each of which BREAKS this property and yet
  (a) still compiles (whole workspace: `cargo build --workspace --offline` is not required, but the changed package and its dependents must compile);
  (b) passes the existing test suite of the changed package(s) unedited (`cargo test -p <package> --offline` in the worktree, plus the tests of packages that directly depend on the changed code when that is quick);
